@@ -15,11 +15,49 @@ func init() { runners["C19"] = runC19 }
 
 // ---- rendering of criteria as Coq terms / JSON ------------------------------------------------
 
+// calDay: the calendar date of t in t's own zone ("only the date is used, the time and timezone
+// are ignored", search.go), as the UTC midnight of that date.
+func calDay(t time.Time) time.Time {
+	return time.Date(t.Year(), t.Month(), t.Day(), 0, 0, 0, 0, time.UTC)
+}
+
+// the model's dates are calendar dates (seconds of the date's UTC midnight), 0 = unset
 func coqTime(t time.Time) string {
 	if t.IsZero() {
 		return "0%Z"
 	}
-	return coqZ(t.Unix())
+	return coqZ(calDay(t).Unix())
+}
+
+func coqModSeq(q *imap.SearchCriteriaModSeq) string {
+	if q == nil {
+		return "None"
+	}
+	return fmt.Sprintf("(Some (%d%%N, %s, %s))", q.ModSeq, coqHxS(q.MetadataName), coqHxS(string(q.MetadataType)))
+}
+
+// coqXCriteria: criteria with the ModSeq field at every level (Model/SearchModSeq.v)
+func coqXCriteria(c *imap.SearchCriteria) string {
+	var seqs, uids, hdr, nots, ors []string
+	for _, s := range c.SeqNum {
+		seqs = append(seqs, coqNumSetRanges(s))
+	}
+	for _, s := range c.UID {
+		uids = append(uids, coqNumSetRanges(s))
+	}
+	for _, h := range c.Header {
+		hdr = append(hdr, "("+coqHxS(h.Key)+", "+coqHxS(h.Value)+")")
+	}
+	for i := range c.Not {
+		nots = append(nots, coqXCriteria(&c.Not[i]))
+	}
+	for i := range c.Or {
+		ors = append(ors, "("+coqXCriteria(&c.Or[i][0])+", "+coqXCriteria(&c.Or[i][1])+")")
+	}
+	return "(XCrit " + strings.Join([]string{
+		coqList(seqs), coqList(uids), coqTime(c.Since), coqTime(c.Before), coqTime(c.SentSince), coqTime(c.SentBefore),
+		coqList(hdr), coqStrs(c.Body), coqStrs(c.Text), coqFlags(c.Flag), coqFlags(c.NotFlag),
+		coqZ(c.Larger), coqZ(c.Smaller), coqModSeq(c.ModSeq), coqList(nots), coqList(ors)}, " ") + ")"
 }
 
 func coqNumSetRanges(s imap.NumSet) string {
@@ -87,6 +125,16 @@ type uMsg struct {
 	Text     string
 	Body     string
 	Hdr      map[string]string // lower-case key
+	ModSeq   uint64            // mod-sequence of the message (entry "")
+}
+
+// modOf: the mod-sequence of one metadata entry of the message (RFC 7162 MODSEQ search key:
+// the message matches when this value is >= the key's value); distinct entries differ
+func modOf(m *uMsg, q *imap.SearchCriteriaModSeq) uint64 {
+	if q.MetadataName == "" {
+		return m.ModSeq
+	}
+	return (m.ModSeq*7 + uint64(len(q.MetadataName))*3 + uint64(len(q.MetadataType))*11) % 50
 }
 
 // the date universe spans months and years, with day-of-month and month inversions
@@ -128,6 +176,7 @@ func universe() []uMsg {
 			}
 			m.Text = []string{"hello world", "HELLO", "foo bar", ""}[i%4]
 			m.Body = []string{"world", "bar", "", "hello"}[(i/2)%4]
+			m.ModSeq = uint64(i*13) % 50
 			m.Hdr = map[string]string{}
 			if i%3 != 0 {
 				m.Hdr["subject"] = []string{"Hello", "re: foo"}[i%2]
@@ -145,11 +194,13 @@ func universe() []uMsg {
 	return u
 }
 
+// only the calendar dates are compared (SearchCriteria: "Only the date is used, the time and
+// timezone are ignored"; RFC 3501 SINCE/BEFORE disregard time and timezone)
 func dateOK(t time.Time, since, before time.Time) bool {
-	if !since.IsZero() && t.Before(since) {
+	if !since.IsZero() && calDay(t).Before(calDay(since)) {
 		return false
 	}
-	if !before.IsZero() && !t.Before(before) {
+	if !before.IsZero() && !calDay(t).Before(calDay(before)) {
 		return false
 	}
 	return true
@@ -212,6 +263,9 @@ func critMatch(m *uMsg, c *imap.SearchCriteria) bool {
 		return false
 	}
 	if c.Smaller != 0 && m.Size >= c.Smaller {
+		return false
+	}
+	if c.ModSeq != nil && modOf(m, c.ModSeq) < c.ModSeq.ModSeq {
 		return false
 	}
 	for i := range c.Not {
@@ -546,6 +600,16 @@ func (g *c19) randCriteria(depth int) imap.SearchCriteria {
 	if pick() {
 		c.Smaller = sz[r.Intn(len(sz))]
 	}
+	if r.Intn(4) == 0 {
+		c.ModSeq = g.randModSeq()
+	}
+	// bounds that are not UTC midnights: only their calendar date (in their own zone) counts
+	if r.Intn(6) == 0 {
+		c.Since = g.zoned(c.Since)
+		c.Before = g.zoned(c.Before)
+		c.SentSince = g.zoned(c.SentSince)
+		c.SentBefore = g.zoned(c.SentBefore)
+	}
 	if depth > 0 && r.Intn(4) == 0 {
 		c.Not = append(c.Not, g.randCriteria(depth-1))
 	}
@@ -553,6 +617,40 @@ func (g *c19) randCriteria(depth int) imap.SearchCriteria {
 		c.Or = append(c.Or, [2]imap.SearchCriteria{g.randCriteria(depth - 1), g.randCriteria(depth - 1)})
 	}
 	return c
+}
+
+func (g *c19) randModSeq() *imap.SearchCriteriaModSeq {
+	r := g.h.Rng
+	q := &imap.SearchCriteriaModSeq{ModSeq: []uint64{1, 5, 20, 42, 49}[r.Intn(5)]}
+	if r.Intn(3) == 0 {
+		q.MetadataName = []string{"/flags/\\seen", "/flags/\\draft"}[r.Intn(2)]
+		q.MetadataType = []imap.SearchCriteriaMetadataType{imap.SearchCriteriaMetadataAll, imap.SearchCriteriaMetadataPrivate, imap.SearchCriteriaMetadataShared}[r.Intn(3)]
+	}
+	return q
+}
+
+// zoned: the same calendar date written with a time of day and a zone far from UTC
+func (g *c19) zoned(t time.Time) time.Time {
+	if t.IsZero() {
+		return t
+	}
+	r := g.h.Rng
+	off := []int{14 * 3600, -10 * 3600, -12 * 3600, 5*3600 + 1800, 0}[r.Intn(5)]
+	return time.Date(t.Year(), t.Month(), t.Day(), []int{0, 1, 12, 23}[r.Intn(4)], r.Intn(60), 0, 0, time.FixedZone("", off))
+}
+
+// the message is excluded by the operand's own (top-level) ModSeq constraint
+func failsModSeq(m *uMsg, c *imap.SearchCriteria) bool {
+	return c.ModSeq != nil && modOf(m, c.ModSeq) < c.ModSeq.ModSeq
+}
+
+func offDay(c *imap.SearchCriteria) bool {
+	for _, t := range []time.Time{c.Since, c.Before, c.SentSince, c.SentBefore} {
+		if !t.IsZero() && !t.Equal(calDay(t)) {
+			return true
+		}
+	}
+	return false
 }
 
 func cloneCrit(c imap.SearchCriteria) imap.SearchCriteria {
@@ -569,14 +667,18 @@ func cloneCrit(c imap.SearchCriteria) imap.SearchCriteria {
 	d.NotFlag = append([]imap.Flag(nil), c.NotFlag...)
 	d.Not = append([]imap.SearchCriteria(nil), c.Not...)
 	d.Or = append([][2]imap.SearchCriteria(nil), c.Or...)
+	if c.ModSeq != nil {
+		q := *c.ModSeq
+		d.ModSeq = &q
+	}
 	return d
 }
 
-func critDesc(c *imap.SearchCriteria) string { return coqCriteria(c) }
+func critDesc(c *imap.SearchCriteria) string { return coqXCriteria(c) }
 
 func runC19(h *H) {
 	imports := []string{"From GoImap.Base Require Import Bytes.", "From GoImap.Model Require Import NumSet Search SearchCorr."}
-	andCorr := h.NewCorr("and", imports, "and_mismatches", 400).Type("and_case")
+	andCorr := h.NewCorr("and", append(append([]string(nil), imports...), "From GoImap.Model Require Import SearchModSeq."), "xand_mismatches", 400).Type("xand_case")
 	keyCorr := h.NewCorr("keys", imports, "keys_mismatches", 400).Type("keys_case")
 	g := &c19{h: h, u: universe()}
 	h.Rule("(1) SearchCriteria.And on generated pairs of criteria (every field set/unset, sizes incl. 0 and negative, nested NOT/OR to depth 2): field-by-field against the model, and match results of an independent matcher on a message universe whose dates span months and years distinguishing every field; (2) SEARCH commands (1..5 keys, all key kinds, NOT/OR/parenthesised lists, every permutation when <= 4 keys) through the real server parser to a recording stub session: recorded criteria against the model's parse_keys and against the RFC meaning of each key on the universe. Non-trivial = both operands constrain the same date/size field, or the command has >= 2 keys; distinct by rendered case.")
@@ -593,6 +695,10 @@ func runC19(h *H) {
 			if got := critMatch(m, &res); got != want {
 				lost := "other"
 				switch {
+				case got && (failsModSeq(m, &a0) || failsModSeq(m, &b)):
+					lost = "modseq-lost"
+				case offDay(&a0) || offDay(&b):
+					lost = "date-zone"
 				case a0.Smaller != 0 && b.Smaller == 0 && res.Smaller == 0:
 					lost = "smaller-lost"
 				case res.Larger != a0.Larger && res.Larger != b.Larger:
@@ -604,12 +710,12 @@ func runC19(h *H) {
 			}
 		}
 		key := ""
-		if (a0.Smaller != 0 || b.Smaller != 0) || (a0.Larger != 0 && b.Larger != 0) || (!a0.Since.IsZero() && !b.Since.IsZero()) || (!a0.Before.IsZero() && !b.Before.IsZero()) {
+		if (a0.Smaller != 0 || b.Smaller != 0) || b.ModSeq != nil || (a0.Larger != 0 && b.Larger != 0) || (!a0.Since.IsZero() && !b.Since.IsZero()) || (!a0.Before.IsZero() && !b.Before.IsZero()) {
 			key = "and|" + critDesc(&a0) + "|" + critDesc(&b)
 		}
 		h.Eval(key)
 		h.Hist("and:" + src)
-		andCorr.Add("("+coqCriteria(&a0)+", "+coqCriteria(&b)+", "+coqCriteria(&res)+")", desc)
+		andCorr.Add("("+coqXCriteria(&a0)+", "+coqXCriteria(&b)+", "+coqXCriteria(&res)+")", desc)
 		if key != "" && h.Rng.Intn(200) == 0 {
 			h.Sample(desc)
 		}
@@ -707,6 +813,38 @@ func runC19(h *H) {
 	checkAnd(imap.SearchCriteria{Since: dayN(1)}, imap.SearchCriteria{Since: dayN(3)}, "corpus")
 	checkAnd(imap.SearchCriteria{Before: dayN(1)}, imap.SearchCriteria{Before: dayN(3)}, "corpus")
 	checkAnd(imap.SearchCriteria{Smaller: 100, Since: dayN(1)}, imap.SearchCriteria{Before: dayN(3)}, "corpus")
+	// ModSeq (CONDSTORE) is a constraint like any other: unset/set, same and different metadata entries
+	{
+		ms := func(v uint64, name string, typ imap.SearchCriteriaMetadataType) imap.SearchCriteria {
+			return imap.SearchCriteria{ModSeq: &imap.SearchCriteriaModSeq{ModSeq: v, MetadataName: name, MetadataType: typ}}
+		}
+		seen := imap.SearchCriteria{Flag: []imap.Flag{imap.FlagSeen}}
+		checkAnd(seen, ms(42, "", ""), "corpus-modseq")
+		checkAnd(ms(42, "", ""), seen, "corpus-modseq")
+		checkAnd(ms(5, "", ""), ms(42, "", ""), "corpus-modseq")
+		checkAnd(ms(42, "", ""), ms(5, "", ""), "corpus-modseq")
+		checkAnd(ms(20, "", ""), ms(20, "", ""), "corpus-modseq")
+		checkAnd(ms(5, "/flags/\\seen", imap.SearchCriteriaMetadataAll), ms(42, "", ""), "corpus-modseq")
+		checkAnd(ms(42, "/flags/\\seen", imap.SearchCriteriaMetadataPrivate), ms(5, "/flags/\\seen", imap.SearchCriteriaMetadataShared), "corpus-modseq")
+		checkAnd(ms(5, "/flags/\\seen", imap.SearchCriteriaMetadataPrivate), ms(42, "/flags/\\seen", imap.SearchCriteriaMetadataPrivate), "corpus-modseq")
+		checkAnd(imap.SearchCriteria{Not: []imap.SearchCriteria{ms(20, "", "")}}, ms(5, "", ""), "corpus-modseq")
+	}
+	// date bounds written in zones far from UTC: the calendar date decides, not the instant
+	{
+		east := time.FixedZone("", 14*3600)
+		west := time.FixedZone("", -10*3600)
+		for d := 1; d+1 < len(c19Days); d++ {
+			y, mo, dd := dayN(d).Date()
+			lateE := time.Date(y, mo, dd+1, 0, 0, 0, 0, east) // calendar date d+1, instant before (d, 23:00 west)
+			earlyW := time.Date(y, mo, dd, 23, 0, 0, 0, west) // calendar date d
+			checkAnd(imap.SearchCriteria{Since: lateE}, imap.SearchCriteria{Since: earlyW}, "corpus-zone")
+			checkAnd(imap.SearchCriteria{Since: earlyW}, imap.SearchCriteria{Since: lateE}, "corpus-zone")
+			checkAnd(imap.SearchCriteria{Before: lateE}, imap.SearchCriteria{Before: earlyW}, "corpus-zone")
+			checkAnd(imap.SearchCriteria{Before: earlyW}, imap.SearchCriteria{Before: lateE}, "corpus-zone")
+			checkAnd(imap.SearchCriteria{SentSince: lateE}, imap.SearchCriteria{SentSince: earlyW}, "corpus-zone")
+			checkAnd(imap.SearchCriteria{SentBefore: earlyW}, imap.SearchCriteria{SentBefore: lateE}, "corpus-zone")
+		}
+	}
 	for a := 0; a < len(c19Days); a++ {
 		for b := 0; b < len(c19Days); b++ {
 			checkAnd(imap.SearchCriteria{Since: dayN(a)}, imap.SearchCriteria{Since: dayN(b)}, "corpus")
@@ -748,6 +886,7 @@ func runC19(h *H) {
 			var ss imap.SeqSet
 			ss.AddRange(1, 5)
 			b.SeqNum = append(make([]imap.SeqSet, 0, 4), ss)
+			b.ModSeq = &imap.SearchCriteriaModSeq{ModSeq: 7}
 			return b
 		}
 		extra := func(i int) imap.SearchCriteria {
@@ -785,6 +924,7 @@ func runC19(h *H) {
 		d3Before := critDesc(&d3)
 		base3.Flag = append(base3.Flag, "$later")
 		base3.Text[0] = "changed"
+		base3.ModSeq.ModSeq = 99
 		if got := critDesc(&d3); got != d3Before {
 			h.Fail("and-aliases-operand", "modifying the operand after And changed the receiver", desc)
 		}
